@@ -16,7 +16,7 @@ RULE = ("Fitted SupervisedOPF / SemiSupervisedOPF models from the C01 generators
         "it did not (counted from a recording distance wrapper; pre-computed cases: >=1 query with a unique label answer); distinct = case hash.")
 ASSUMPTIONS = [
     "the fitted forest (costs, assigned labels) is taken from the implementation; C01 judges it",
-    "queries with a non-finite weight to some training sample are skipped and counted",
+    "queries with a NaN weight to some training sample are skipped and counted; +inf weights (overflow) are ordinary values of the exhaustive scan",
     "the number of distance evaluations is evidence only: a legal implementation may evaluate more or fewer",
 ]
 BUDGET = {
@@ -40,8 +40,8 @@ def admissible(model, R):
     out = []
     for x in range(R.shape[1]):
         col = R[:, x]
-        if not np.all(np.isfinite(col)):
-            out.append(None)
+        if np.any(np.isnan(col)) or np.any(col == -np.inf):
+            out.append(None)            # no order among NaN weights: not judged
             continue
         m = np.maximum(cost, col)
         M = m.min()
@@ -114,6 +114,8 @@ def check(case):
             res.see("semi_queries")
         if case.get("pre"):
             res.see("pre_computed_queries")
+        if M == np.inf:
+            res.see("all_distances_overflow_queries")      # every training sample ties at +inf: any TRAINING label is admissible
         if len(labels) > 1:
             res.see("tie_label_set>1")
         else:
